@@ -18,13 +18,14 @@ type gen struct {
 	ops  []Op
 	tier string
 	// generator-side intent state (what it believes it has pushed), only used to make sequences meaningful
-	blobsIn map[int]map[int]bool // repo -> obj
-	mansIn  map[int]map[int]bool
-	tagsIn  map[int]map[string]int
-	nSess   int
+	blobsIn  map[int]map[int]bool // repo -> obj
+	mansIn   map[int]map[int]bool
+	tagsIn   map[int]map[string]int
+	nSess    int
 	sessOpen map[int]int // sess idx -> repo
 	sessObj  map[int]int
-	tagPool []string
+	tagPool  []string
+	sleptMs  int64 // planned sleep so far: bounds the number of timer firings a plan can cause
 }
 
 func newGen(seed uint64, tier string) *gen {
@@ -663,6 +664,11 @@ func planC04(prop string, seed uint64, tier string, idx int) *Plan {
 	good2 := g.newImage(-1, good)
 	gidx := g.newIndex([]int{good}, -1)
 	art := g.newImage(good, -1)
+	// bodies whose own mediaType field contradicts their shape (config/layers under an index type and the reverse)
+	confImg := g.newImage(-1, -1)
+	g.p.Objs[confImg].MT = g.r.str(mtOCIIndex, mtDockList)
+	confIdx := g.newIndex([]int{good}, -1)
+	g.p.Objs[confIdx].MT = g.r.str(mtOCIManifest, mtDockManifest)
 	// malformed bodies
 	raws := []string{
 		`{"schemaVersion":2,"mediaType":"` + mtOCIManifest + `","config":{"mediaType":"` + mtOCIConfig + `","digest":"sha256:`,
@@ -683,7 +689,22 @@ func planC04(prop string, seed uint64, tier string, idx int) *Plan {
 	n := g.scale(g.r.between(5, 16))
 	for i := 0; i < n; i++ {
 		repo := g.r.intn(g.nrepos())
-		switch g.r.intn(14) {
+		switch g.r.intn(15) {
+		case 14:
+			// the body contradicts itself; the type is left to detection, repeated by the header, or set by the header
+			m := g.r.pick(confImg, confIdx)
+			if g.r.chance(40) {
+				o := g.p.Objs[m]
+				if o.Kind == "image" {
+					g.ensureBlob(repo, o.Config)
+					for _, l := range o.Layers {
+						g.ensureBlob(repo, l)
+					}
+				} else if !g.mansIn[repo][good] {
+					g.pushManifest(repo, good, "", false)
+				}
+			}
+			g.add(Op{K: "man", Repo: repo, Obj: m, Tag: g.r.str("", "confused"), CT: g.r.str("none", "none", "own", mtOCIManifest, mtOCIIndex), Algo: g.refAlgo()})
 		case 0, 1:
 			g.pushManifest(repo, g.r.pick(good, good2, gidx, art), g.r.str("", "v1", "stable"), false)
 		case 2:
@@ -973,10 +994,14 @@ func (g *gen) sleepMs() int64 {
 		if lim := f.Milliseconds() * 60; ms > lim {
 			ms = lim
 		}
+		if left := f.Milliseconds()*1200 - g.sleptMs; ms > left {
+			ms = left
+		}
 	}
 	if ms < 1 {
 		ms = 1
 	}
+	g.sleptMs += ms
 	return ms
 }
 
